@@ -13,11 +13,17 @@ package keygen
 //@   loop 1: invariant fresh(PublicSharesECDSA)
 // (induction on the session object) on success the next round starts from the state invariant its methods assume
 //@   ensures result1 == nil ==> (typeis(result0, *round1) && k1ok(result0.(*round1)) && each(result0.(*round1).VSSSecret.coefficients, c, c != nil))
+// (C04, C05) the announced final round number covers every round the session can reach, the identifiable-abort rounds included
+//@   requires info.FinalRoundNumber >= 5
+//@   ensures[C04,C05] result1 == nil ==> result0.(*round1).Helper.info.FinalRoundNumber >= 5
 
 // ---- refresh / keygen round 4 (C08, C02): the new secret share is a NEW scalar -- the previous epoch's share object
 // is left untouched --; every party's new public share is F(j) (+ the previous public share of THAT party when
 // refreshing); the new configuration holds exactly these.
 //@ func (*round4).Finalize
+// (C04, C05) the round handed to the handler is one the session announced: its number is within the final round
+// number, so the handler holds a queue for it and waits for every party before finalizing it
+//@   ensures[C04,C05] result1 == nil ==> result0.Number() <= old(r.Helper.info.FinalRoundNumber)
 //@   nopanic[C05]
 //@   requires r != nil && r.round3 != nil && r.round2 != nil && r.round1 != nil && r.Helper != nil
 //@   requires k4ok(r) && out != nil && !closed(out) && r.SchnorrRand != nil && r.SchnorrRand.a != nil && r.SchnorrRand.commitment.C != nil && len(r.RID) == 32 && len(r.ChainKey) == 32
@@ -42,7 +48,7 @@ package keygen
 //@   ensures typeis(result0, *round.Output) ==> result0.(*round.Output).Result != nil
 
 // ---- round state invariants (established by the start function / the previous Finalize)
-//@ pred khok(h *round.Helper) := h != nil && h.hash != nil && h.hash.h != nil && h.info.Group != nil && typeis(h.info.Group, curve.Secp256k1) && !held(h.mtx)
+//@ pred khok(h *round.Helper) := h != nil && h.info.FinalRoundNumber >= 5 && h.hash != nil && h.hash.h != nil && h.info.Group != nil && typeis(h.info.Group, curve.Secp256k1) && !held(h.mtx)
 //@ pred k1ok(r *round1) := r != nil && khok(r.Helper) && r.VSSSecret != nil && r.VSSSecret.group != nil && len(r.VSSSecret.coefficients) > 0 && r.VSSSecret.coefficients[0] != nil
 //@ pred k2ok(r *round2) := r != nil && k1ok(r.round1) && r.VSSPolynomials != nil && r.Commitments != nil && r.RIDs != nil && r.ChainKeys != nil && r.ShareReceived != nil && r.ElGamalPublic != nil && r.PaillierPublic != nil && r.Pedersen != nil && r.RIDs != r.ChainKeys
 //@ pred k3ok(r *round3) := r != nil && k2ok(r.round2) && r.SchnorrCommitments != nil
@@ -124,6 +130,9 @@ package keygen
 // through) nothing panics.
 //@ pred skok(sk *paillier.SecretKey) := sk != nil && sk.PublicKey != nil && pkok(sk.PublicKey) && pkvals(sk.PublicKey) && pkbig(sk.PublicKey) && sk.p != nil && sk.q != nil && sk.phi != nil && sk.phiInv != nil
 //@ func (*round3).Finalize
+// (C04, C05) the round handed to the handler is one the session announced: its number is within the final round
+// number, so the handler holds a queue for it and waits for every party before finalizing it
+//@   ensures[C04,C05] result1 == nil ==> result0.Number() <= old(r.Helper.info.FinalRoundNumber)
 //@   nopanic[C05]
 //@   use bits
 //@   requires k3ok(r) && out != nil && !closed(out) && skok(r.PaillierSecret) && r.PedersenSecret != nil
@@ -143,6 +152,9 @@ package keygen
 //@   ensures typeis(result0, *round.Abort) ==> result0.(*round.Abort).Err != nil
 //@   ensures typeis(result0, *round.Output) ==> result0.(*round.Output).Result != nil
 //@ func (*round2).Finalize
+// (C04, C05) the round handed to the handler is one the session announced: its number is within the final round
+// number, so the handler holds a queue for it and waits for every party before finalizing it
+//@   ensures[C04,C05] result1 == nil ==> result0.Number() <= old(r.Helper.info.FinalRoundNumber)
 //@   nopanic[C05]
 //@   requires k2ok(r) && out != nil && !closed(out) && r.SchnorrRand != nil && r.Pedersen[r.Helper.info.SelfID] != nil && pedok(r.Pedersen[r.Helper.info.SelfID])
 // (induction on the session object) on success the next round starts from the state invariant its methods assume
@@ -153,6 +165,9 @@ package keygen
 //@   ensures typeis(result0, *round.Abort) ==> result0.(*round.Abort).Err != nil
 //@   ensures typeis(result0, *round.Output) ==> result0.(*round.Output).Result != nil
 //@ func (*round5).Finalize
+// (C04, C05) the round handed to the handler is one the session announced: its number is within the final round
+// number, so the handler holds a queue for it and waits for every party before finalizing it
+//@   ensures[C04,C05] result1 == nil ==> result0.Number() <= old(r.Helper.info.FinalRoundNumber)
 //@   nopanic[C05]
 //@   requires r != nil && k4ok(r.round4)
 // refinement of the interface contract of round.Round.Finalize (what the handler relies on)
@@ -160,6 +175,9 @@ package keygen
 //@   ensures typeis(result0, *round.Abort) ==> result0.(*round.Abort).Err != nil
 //@   ensures typeis(result0, *round.Output) ==> result0.(*round.Output).Result != nil
 //@ func (*round1).Finalize
+// (C04, C05) the round handed to the handler is one the session announced: its number is within the final round
+// number, so the handler holds a queue for it and waits for every party before finalizing it
+//@   ensures[C04,C05] result1 == nil ==> result0.Number() <= old(r.Helper.info.FinalRoundNumber)
 //@   nopanic[C05]
 //@   requires k1ok(r) && out != nil && !closed(out) && each(r.VSSSecret.coefficients, c, c != nil) && idsc(r.Helper.info.SelfID) != s_zero()
 // (induction on the session object) on success the next round starts from the state invariant its methods assume
